@@ -482,6 +482,55 @@ fn run_aig_parse<L: flussab_aiger::Lit + 'static>(reader: DeferredReader<'static
     });
 }
 
+/// structured encoding of a BTOR2 line (numbers as decimal strings, constants/symbols/comments as bytes)
+pub fn btor_line_json(l: &flussab_btor2::btor2::Line) -> serde_json::Value {
+    use flussab_btor2::btor2::{Array, AssignmentKind, Const, Line, NodeId, NodeVariant, Op, Output, Sort, UnaryOp, ValueVariant};
+    type Value = serde_json::Value;
+    let opt = |b: Option<&bstr::BStr>| match b {
+        Some(x) => json!(["some", bytes_json(x)]),
+        None => json!(["none"]),
+    };
+    let id = |n: NodeId| num(n.0.get());
+    match l {
+        Line::Comment(c) => json!(["cline", bytes_json(c)]),
+        Line::Node(n) => {
+            let (kw, args): (String, Vec<Value>) = match &n.variant {
+                NodeVariant::Sort(Sort::BitVec(w)) => ("sort".into(), vec![json!("bitvec"), num(w.get())]),
+                NodeVariant::Sort(Sort::Array(Array(d, c))) => ("sort".into(), vec![json!("array"), id(*d), id(*c)]),
+                NodeVariant::Assignment(a) => (
+                    match a.kind { AssignmentKind::Init => "init", AssignmentKind::Next => "next" }.into(),
+                    vec![id(a.sort), id(a.state), id(a.value)],
+                ),
+                NodeVariant::Output(Output::SingleValue(o)) => (format!("{:?}", o.kind).to_lowercase(), vec![id(o.value)]),
+                NodeVariant::Output(Output::Justice(ns)) => {
+                    let mut a = vec![num(ns.len())];
+                    a.extend(ns.iter().map(|x| id(*x)));
+                    ("justice".into(), a)
+                }
+                NodeVariant::Value(v) => match &v.variant {
+                    ValueVariant::Input => ("input".into(), vec![id(v.sort)]),
+                    ValueVariant::State => ("state".into(), vec![id(v.sort)]),
+                    ValueVariant::Const(Const::One) => ("one".into(), vec![id(v.sort)]),
+                    ValueVariant::Const(Const::Ones) => ("ones".into(), vec![id(v.sort)]),
+                    ValueVariant::Const(Const::Zero) => ("zero".into(), vec![id(v.sort)]),
+                    ValueVariant::Const(Const::Binary(c)) => ("const".into(), vec![id(v.sort), bytes_json(c.to_string().as_bytes())]),
+                    ValueVariant::Const(Const::Decimal(c)) => ("constd".into(), vec![id(v.sort), bytes_json(c.to_string().as_bytes())]),
+                    ValueVariant::Const(Const::Hex(c)) => ("consth".into(), vec![id(v.sort), bytes_json(c.to_string().as_bytes())]),
+                    ValueVariant::Op(Op::Unary(op, a)) => match op {
+                        UnaryOp::Uext(k) => ("uext".into(), vec![id(v.sort), id(*a), num(*k)]),
+                        UnaryOp::Sext(k) => ("sext".into(), vec![id(v.sort), id(*a), num(*k)]),
+                        UnaryOp::Slice(u, lo) => ("slice".into(), vec![id(v.sort), id(*a), num(*u), num(*lo)]),
+                        other => (format!("{:?}", other).to_lowercase(), vec![id(v.sort), id(*a)]),
+                    },
+                    ValueVariant::Op(Op::Binary(op, [a, b])) => (format!("{:?}", op).to_lowercase(), vec![id(v.sort), id(*a), id(*b)]),
+                    ValueVariant::Op(Op::Ternary(op, [a, b, c])) => (format!("{:?}", op).to_lowercase(), vec![id(v.sort), id(*a), id(*b), id(*c)]),
+                },
+            };
+            json!(["node", id(n.id), kw, args, opt(n.symbol), opt(n.comment)])
+        }
+    }
+}
+
 fn run_btor2(reader: DeferredReader<'static>) {
     use flussab_btor2 as m;
     let mut slot = None;
@@ -498,7 +547,7 @@ fn run_btor2(reader: DeferredReader<'static>) {
     let mut p = slot.take().unwrap();
     loop {
         let go = call("next_line", || match p.next_line() {
-            Ok(Some(l)) => json!({"res":"some","item":["line", format!("{:?}", l)]}),
+            Ok(Some(l)) => json!({"res":"some","item":btor_line_json(&l)}),
             Ok(None) => json!({"res":"none"}),
             Err(e) => btor_err(&e),
         });
